@@ -627,4 +627,122 @@ theorem distribute_flatten {α} (bd : Budget) (gs : List (List α)) :
           rw [advance_ss _ _ _ hl]
           have := take_drop_append o l g rest.flatten
           simpa [applyBudget, takeOpt] using this.symm
+
+theorem trueIdx_rep_false_append (b n : Nat) (m : List Bool) :
+    trueIdx b (List.replicate n false ++ m) = trueIdx (b + n) m := by
+  rw [trueIdx_append, trueIdx_rep_false]; simp
+
+theorem trueIdx_rep_true_append (b n : Nat) (m : List Bool) :
+    trueIdx b (List.replicate n true ++ m) = List.range' b n ++ trueIdx (b + n) m := by
+  rw [trueIdx_append, trueIdx_rep_true]; simp
+
+/-- invariant of the selector-cursor loop of `next_inner` -/
+theorem selLoop_ok (b total : Nat) (sels : List Sel) (pos : Nat) (buf : List Nat)
+    (hfit : pos + sumN sels ≤ total) (hbuf : buf.length ≤ b) :
+    ∃ st, selLoop b total sels pos buf = some st ∧
+      ∃ X, st.rows = buf ++ X ∧ X ++ trueIdx st.pos (mask st.sels) = trueIdx pos (mask sels) ∧
+      st.pos + sumN st.sels ≤ total ∧ st.rows.length ≤ b ∧
+      (st.rows.length = b ∨ trueIdx st.pos (mask st.sels) = []) := by
+  fun_induction selLoop b total sels pos buf with
+  | case1 pos buf => exact ⟨_, rfl, [], by simp, by simp [trueIdx], by simpa using hfit, hbuf, Or.inr rfl⟩
+  | case2 front rest pos buf h =>
+    exact ⟨_, rfl, [], by simp, by simp, hfit, hbuf, Or.inl (by simp; omega)⟩
+  | case3 front rest pos buf h hs skipped herr =>
+    obtain ⟨n, k⟩ := front
+    simp [sumN] at hfit
+    simp [skipped] at herr
+    omega
+  | case4 front rest pos buf h hs skipped herr ih =>
+    obtain ⟨n, k⟩ := front
+    simp at hs; subst hs
+    simp [sumN] at hfit
+    have hsk : skipped = n := by simp [skipped]; omega
+    rw [hsk] at ih ⊢
+    obtain ⟨st, h1, X, h2, h3, h4, h5, h6⟩ := ih (by omega) hbuf
+    refine ⟨st, h1, X, h2, ?_, h4, h5, h6⟩
+    rw [h3, mask_cons]; simp [trueIdx_rep_false_append]
+  | case5 front rest pos buf h hs h0 ih =>
+    obtain ⟨n, k⟩ := front
+    simp at hs h0; subst hs; subst h0
+    simp [sumN] at hfit
+    obtain ⟨st, h1, X, h2, h3, h4, h5, h6⟩ := ih (by omega) hbuf
+    exact ⟨st, h1, X, h2, by simpa using h3, h4, h5, h6⟩
+  | case6 front rest pos buf h hs h0 need hgt rec_ hz =>
+    obtain ⟨n, k⟩ := front
+    simp [sumN] at hfit
+    simp [need] at hgt
+    simp [rec_, need] at hz
+    omega
+  | case7 front rest pos buf h hs h0 need hgt rec_ hz ih =>
+    obtain ⟨n, k⟩ := front
+    simp at hs; subst hs
+    simp [sumN] at hfit
+    simp [need] at hgt
+    have hr : rec_ = need := by simp [rec_, need]; omega
+    rw [hr] at ih ⊢
+    obtain ⟨st, h1, X, h2, h3, h4, h5, h6⟩ :=
+      ih (by simp [sumN, need]; omega) (by simp [need]; omega)
+    refine ⟨st, h1, List.range' pos need ++ X, by simp [h2], ?_, h4, h5, h6⟩
+    rw [List.append_assoc, h3, mask_cons, mask_cons]
+    simp only [Bool.not_false]
+    rw [trueIdx_rep_true_append, trueIdx_rep_true_append, ← List.append_assoc,
+      List.range'_append_1]
+    have e1 : need + (n - need) = n := by simp [need] at *; omega
+    have e2 : pos + need + (n - need) = pos + n := by simp [need] at *; omega
+    rw [e1, e2]
+  | case8 front rest pos buf h hs h0 need hgt rec_ hz =>
+    obtain ⟨n, k⟩ := front
+    simp [sumN] at hfit
+    simp at h0
+    simp [rec_] at hz
+    omega
+  | case9 front rest pos buf h hs h0 need hgt rec_ hz ih =>
+    obtain ⟨n, k⟩ := front
+    simp at hs; subst hs
+    simp [sumN] at hfit
+    simp [need] at hgt
+    have hr : rec_ = n := by simp [rec_]; omega
+    rw [hr] at ih ⊢
+    obtain ⟨st, h1, X, h2, h3, h4, h5, h6⟩ := ih (by omega) (by simp; omega)
+    refine ⟨st, h1, List.range' pos n ++ X, by simp [h2], ?_, h4, h5, h6⟩
+    rw [List.append_assoc, h3, mask_cons]
+    simp only [Bool.not_false]
+    rw [trueIdx_rep_true_append]
+
+/-- draining the reader with a selector cursor -/
+theorem readAll_selectors (b total : Nat) (hb : 0 < b) (fuel : Nat) (s : List Sel) (pos : Nat)
+    (hfit : pos + sumN s ≤ total) (hfuel : (trueIdx pos (mask s)).length < fuel) :
+    ∃ bs, readAll b total fuel (.selectors s) pos = some bs ∧
+      bs.flatten = trueIdx pos (mask s) ∧ ∀ x ∈ bs, 0 < x.length ∧ x.length ≤ b := by
+  induction fuel generalizing s pos with
+  | zero => omega
+  | succ fuel ih =>
+    obtain ⟨st, h1, X, h2, h3, h4, h5, h6⟩ := selLoop_ok b total s pos [] hfit (by simp)
+    simp only [List.nil_append] at h2
+    unfold readAll
+    simp only [show b ≠ 0 by omega, if_false, h1]
+    by_cases he : st.rows.isEmpty
+    · simp only [he, if_true]
+      have hX : X = [] := by rw [← h2]; simpa using he
+      have : trueIdx st.pos (mask st.sels) = [] := by
+        rcases h6 with h6 | h6
+        · rw [h2, hX] at h6; simp at h6; omega
+        · exact h6
+      refine ⟨[], rfl, ?_, by simp⟩
+      rw [← h3, hX, this]; simp
+    · simp only [he, Bool.false_eq_true, if_false]
+      have hlen : (trueIdx st.pos (mask st.sels)).length < fuel := by
+        have := congrArg List.length h3
+        simp at this
+        have hx : 0 < X.length := by
+          rw [← h2]; exact List.length_pos_iff.mpr (by simpa using he)
+        omega
+      obtain ⟨bs, hb1, hb2, hb3⟩ := ih st.sels st.pos h4 hlen
+      refine ⟨st.rows :: bs, by simp [hb1], ?_, ?_⟩
+      · simp [hb2, h2, h3]
+      · intro x hx
+        simp at hx
+        rcases hx with rfl | hx
+        · exact ⟨List.length_pos_iff.mpr (by simpa using he), h5⟩
+        · exact hb3 x hx
 end ArrowModel.C06
